@@ -433,6 +433,14 @@ def l2_case(args):
     shutil.rmtree(d, ignore_errors=True)
     paths = syn.materialise(w, d)
     out = os.path.join(d, "out")
+    if "REUSED" in extra:
+        # the output folder holds the tables of an earlier run on other reads (every second one) with the most permissive strategies
+        extra = tuple(x for x in extra if x != "REUSED") + ("--force",)
+        w_old = dict(w, reads=[r for i, r in enumerate(w["reads"]) if i % 2 == 0])
+        p_old = syn.materialise(w_old, d + "_old")
+        run.run_isoquant(run.base_argv(p_old, out, extra=["--gene_quantification", "all", "--transcript_quantification", "all"]),
+                         paths["home"], os.path.join(d, "o_old.txt"))
+        shutil.rmtree(d + "_old", ignore_errors=True)
     rc = run.run_isoquant(run.base_argv(paths, out, extra=["--gene_quantification", gs, "--transcript_quantification", ts,
                                                           "--normalization_method", norm] + list(extra)),
                           paths["home"], os.path.join(d, "o.txt"))
@@ -537,6 +545,8 @@ def run(ctx):
             jobs.append((1, gs, gs, "usable_reads", (), ctx.scratch))
             jobs.append((1, gs, gs, "simple", ("--data_type", "pacbio_ccs"), ctx.scratch))
             jobs.append((1, gs, gs, "simple", ("--threads", "2"), ctx.scratch))
+    for gs in (STRATEGIES if not quick else ("unique_only", "all")):
+        jobs.append((1, gs, gs, "simple", ("REUSED",), ctx.scratch))
     seen_types = set()
     for key, errs, types in core.pmap(l2_case, jobs):
         seen_types.update(types)
